@@ -327,6 +327,32 @@ pub fn families() -> Vec<Box<dyn Family>> {
             },
         ),
         family(
+            "moved_blocks",
+            "items unique per side: ordered common items in 4..40 runs of 2..19 items separated by one-sided noise, and a contiguous block of 20..70 common items sitting at different places of the two sides (MOVED across the runs); a third of the cases also has a repeated filler item scattered over both sides.  The longest in-order set is the larger of the two crossing groups: a search that commits to the first long run it meets keeps the wrong one",
+            false,
+            4,
+            |cfg| cfg.n(1_200, 40_000),
+            |idx, cfg, out| {
+                let mut rng = Rng::for_case(cfg.seed, "c15.moved_blocks", idx);
+                let runs = if cfg.tiny { 2 } else { rng.range(4, 40) };
+                let max_run = if cfg.tiny { 2 } else { *rng.pick(&[4usize, 8, 12, 19]) };
+                let block = if cfg.tiny { 3 } else { rng.range(20, 70) };
+                let noise = if cfg.tiny { 1 } else { *rng.pick(&[2usize, 6, 12, 25]) };
+                let (mut a, mut b) = gen::moved_block_pair(&mut rng, runs, max_run, block, noise);
+                if idx % 3 == 0 {
+                    for _ in 0..rng.below(30) {
+                        let pa = rng.below(a.len() + 1);
+                        a.insert(pa, 7);
+                        let pb = rng.below(b.len() + 1);
+                        b.insert(pb, 7);
+                    }
+                }
+                out.sample(|| format!("N={} M={} ({} runs of <= {} items, moved block of {}, noise <= {})", a.len(), b.len(), runs, max_run, block, noise));
+                out.count("moved_block_cases");
+                case(&a, 0..a.len(), &b, 0..b.len(), out);
+            },
+        ),
+        family(
             "big_landmarks",
             "two long mostly unrelated sequences (3500..6000 items each, thorough 5000..12000; distinct one-sided fillers) sharing 5..80 in-order landmark items, a few of them crossing: the anchor search runs through thousands of rounds (D ~ N+M)",
             false,
